@@ -191,7 +191,7 @@ Definition disp_ok (disp : chars) : bool :=
 Definition after_acc (core disp X : chars) : Prop :=
   match X with
   | [] => True
-  | c :: _ => is_note_deco c = true /\ (core <> [] -> disp = [] -> is_display c = false)
+  | c :: _ => (is_note_deco c = true \/ c = " "%char) /\ (core <> [] -> disp = [] -> is_display c = false)
   end.
 
 Lemma deco_char_facts c : is_note_deco c = true ->
@@ -206,16 +206,22 @@ Proof.
   repeat (apply andb_true_iff in G'; destruct G' as [G' ?]). rewrite !negb_true_iff in *. repeat split; assumption.
 Qed.
 
+(* the same facts for what may follow a note inside a chord: a stand-alone signifier or the separating blank *)
+Lemma sep_char_facts c : (is_note_deco c = true \/ c = " "%char) ->
+  Ascii.eqb "#" c = false /\ Ascii.eqb "-" c = false /\ Ascii.eqb c "#" = false /\ Ascii.eqb c "-" = false /\ Ascii.eqb c "n" = false
+  /\ Ascii.eqb c "y" = false /\ Ascii.eqb c "Y" = false /\ is_pitch_letter c = false /\ is_digit c = false.
+Proof. intros [H| ->]; [apply deco_char_facts; exact H | repeat split; reflexivity]. Qed.
+
 Lemma scan_acc_core_print core disp X : core_ok core = true -> disp_ok disp = true -> (core = [] -> disp = []) ->
   after_acc core disp X -> scan_acc_core (core ++ disp ++ X) = Some (core, disp ++ X).
 Proof.
   intros Hc Hd Hcd HX. unfold scan_acc_core.
   destruct core as [|c core'].
   - rewrite (Hcd eq_refl). cbn [app]. destruct X as [|x X']; [reflexivity|].
-    destruct HX as [Hx _]. destruct (deco_char_facts x Hx) as [_ [_ [E1 [E2 [E3 _]]]]]. rewrite E1, E2, E3. reflexivity.
+    destruct HX as [Hx _]. destruct (sep_char_facts x Hx) as [_ [_ [E1 [E2 [E3 _]]]]]. rewrite E1, E2, E3. reflexivity.
   - assert (Hstop : forall ch, (ch = "#"%char \/ ch = "-"%char) -> stops (Ascii.eqb ch) (disp ++ X)).
     { intros ch Hch. destruct disp as [|d1 disp'].
-      - simpl. destruct X as [|x X']; [exact I|]. destruct HX as [Hx _]. destruct (deco_char_facts x Hx) as [E1 [E2 _]].
+      - simpl. destruct X as [|x X']; [exact I|]. destruct HX as [Hx _]. destruct (sep_char_facts x Hx) as [E1 [E2 _]].
         simpl. destruct Hch as [-> | ->]; assumption.
       - simpl. assert (Hd1 : is_display d1 = true).
         { destruct disp' as [|d2 [|d3 disp'']]; simpl in Hd; [exact Hd | | discriminate].
@@ -245,7 +251,7 @@ Proof.
   - cbn [app]. rewrite app_nil_r. destruct X as [|x X']; [reflexivity|]. destruct HX as [Hx Hnd].
     rewrite (Hnd Hne eq_refl). reflexivity.
   - cbn [app]. rewrite Hd. destruct (Ascii.eqb d1 "y" || Ascii.eqb d1 "Y") eqn:Ey; [|reflexivity].
-    destruct X as [|x X']; [reflexivity|]. destruct HX as [Hx _]. destruct (deco_char_facts x Hx) as [_ [_ [_ [_ [_ [Ey1 [Ey2 _]]]]]]].
+    destruct X as [|x X']; [reflexivity|]. destruct HX as [Hx _]. destruct (sep_char_facts x Hx) as [_ [_ [_ [_ [_ [Ey1 [Ey2 _]]]]]]].
     apply orb_true_iff in Ey. destruct Ey as [Ey|Ey]; apply Ascii.eqb_eq in Ey; subst d1; [rewrite Ey1 | rewrite Ey2]; reflexivity.
   - cbn [app]. apply orb_true_iff in Hd. destruct Hd as [Hd|Hd]; apply andb_true_iff in Hd; destruct Hd as [H1 H2];
       apply Ascii.eqb_eq in H1; apply Ascii.eqb_eq in H2; subst d1 d2; cbn; first [reflexivity | rewrite <- app_assoc; reflexivity].
@@ -330,7 +336,7 @@ Proof.
     rewrite <- app_assoc. rewrite (take_while_none is_note_deco ((c :: core') ++ nt_disp n ++ nt_decos n)) by (simpl; exact Hc0).
     assert (HX : after_acc (c :: core') (nt_disp n) (nt_decos n)).
     { unfold after_acc. destruct (nt_decos n) as [|x xs] eqn:Ex; [exact I|].
-      simpl in Hde. apply andb_true_iff in Hde. destruct Hde as [Hx _]. split; [exact Hx|]. intros _ Hdn. exact (Hdisp ltac:(discriminate) Hdn). }
+      simpl in Hde. apply andb_true_iff in Hde. destruct Hde as [Hx _]. split; [left; exact Hx|]. intros _ Hdn. exact (Hdisp ltac:(discriminate) Hdn). }
     rewrite (scan_accidental_print (c :: core') (nt_disp n) (nt_decos n) Hc Hd ltac:(discriminate) HX).
     rewrite (take_while_all is_note_deco (nt_decos n) Hde). cbn [add_decos]. rewrite Hdecos.
     cbn [app]. rewrite ?app_nil_r. rewrite <- ?app_assoc. reflexivity.
